@@ -36,4 +36,14 @@ def mergeStep (res : List L) (l : L) : List L :=
 /-- `merge` of log_compressor.go (without `removeUnchanged`, which only drops logs whose Redo is a no-op) -/
 def merge (logs : List L) : List L := logs.foldl mergeStep []
 
+/-- the table of merged log types (`needMerge`), by ChangeLogType number; checked against the real function on every run
+    (`needmerge` rows of `hx c07`) -/
+def needMerge (t : Nat) : Bool := t ∈ [1, 3, 6, 7, 9, 10, 11, 17, 18]
+
+/-- number of log types (`LOG_TYPE_STOP`) -/
+def logTypeStop : Nat := 20
+
+/-- a log (type, extra, newVal) as an `L`: key = type·100 + extra; only the NewVal cell is recorded -/
+def mkL (t e : Nat) (v : Int) : L := { key := t * 100 + e, mergeable := needMerge t, writes := [(t * 100 + e, v)] }
+
 end LemoModel.MergeLogs
